@@ -679,12 +679,13 @@ package tlog
 //@   ensures [C09] right_inverse: level >= 0 && n >= 0 && SHI(level, n) == index
 //@   # the subtree the position stands for lies inside the records committed so far (what keeps tile arithmetic in 64 bits)
 //@   ensures [C09] coords_bound: (n + 1) * pow2(level) <= index + 1
+//@   ensures [C09] level_bound: level <= 61
 //@   loop 0:
 //@     invariant n >= 0 && n <= index
 //@     invariant indexN == S0(n)
 //@     invariant indexN <= index
 //@     decreases index - indexN
-//@   uses S0_step S0_upper TZ_nonneg split_coords S0_nonneg
+//@   uses S0_step S0_upper TZ_nonneg split_coords S0_nonneg split_level_bound
 //@   props C09
 
 //@ # ---------- the hashes stored with a record are the RFC 6962 hashes of the subtrees it completes (C09) ----------
@@ -706,6 +707,14 @@ package tlog
 //@   ensures TZ(x) < k
 //@   induction x
 //@   trigger TZ(x), pow2(k)
+//@   props C09
+//@ # a record number below 2^61 + 1 has at most 61 trailing zeros (what bounds the level SplitStoredHashIndex returns)
+//@ lemma split_level_bound(x int)
+//@   requires x >= 1 && x <= pow2(61) + 1
+//@   ensures TZ(x) <= 61
+//@   uses TZ_bound
+//@   hint pow2(62)
+//@   trigger TZ(x)
 //@   props C09
 //@ lemma pow2_mul2(a int, b int)
 //@   requires a >= 0 && b >= 0
